@@ -95,6 +95,9 @@ type c15State struct {
 	assigns []c03Assign
 	hist    []string
 	mu      sync.Mutex
+	// hasUnit[name]: CompileRoute was called for name since its last InvalidateCache / ClearCache (sequential histories only)
+	hasUnit    map[string]bool
+	typedHeavy bool
 }
 
 func (s *c15State) log(f string, a ...interface{}) {
@@ -138,20 +141,43 @@ func (s *c15State) op(rng *rand.Rand, names []string, allowDefine bool) bool {
 	name := names[rng.Intn(len(names))]
 	cur := s.cur[name]
 	d := s.defs[name][cur]
-	switch p := rng.Intn(100); {
+	p := rng.Intn(100)
+	if s.typedHeavy && p >= 10 && p < 40 && rng.Intn(100) < 85 {
+		p = 60 // typed-heavy histories: routes mostly known to the JIT through their specialisations only
+	}
+	switch {
 	case p < 10 && allowDefine:
-		// the definition changes; the caller invalidates the name (one of three ways)
+		// the definition changes; the caller invalidates the name
 		nxt := rng.Intn(len(s.defs[name]))
 		s.cur[name] = nxt
-		switch rng.Intn(3) {
+		way := rng.Intn(3)
+		if s.hasUnit != nil && !s.hasUnit[name] && rng.Intn(2) == 0 {
+			way = 3
+		}
+		switch way {
 		case 0, 1:
 			s.j.InvalidateCache(name)
 			s.log("define %s := #%d ; InvalidateCache(%s)", name, s.defs[name][nxt].marker, name)
-		default:
+			if s.hasUnit != nil {
+				s.hasUnit[name] = false
+			}
+		case 2:
 			s.j.ClearCache()
 			s.log("define %s := #%d ; ClearCache()", name, s.defs[name][nxt].marker)
+			for n := range s.hasUnit {
+				s.hasUnit[n] = false
+			}
+		default:
+			// the route is known only through its specialisations (no CompileRoute since the last invalidation):
+			// a deoptimisation is then what retires its code
+			s.j.RecordDeoptimization(name, "type guard failed", map[string]string{"fi": "string"})
+			s.log("define %s := #%d ; RecordDeoptimization(%s) [no baseline unit]", name, s.defs[name][nxt].marker, name)
+			s.w.Count("redefinitions_retired_by_deoptimisation", 1)
 		}
 	case p < 40:
+		if s.hasUnit != nil {
+			s.hasUnit[name] = true
+		}
 		bc, err := s.j.CompileRoute(name, d.route())
 		s.log("CompileRoute(%s, #%d) err=%v", name, d.marker, err)
 		if err != nil {
@@ -222,6 +248,8 @@ func c15Worker(in, out string) {
 		}
 		s.assigns = c03Assignments(rng, s.defs["alpha"][0].prog.Free)[:2]
 		if !p.Concurrent {
+			s.hasUnit = map[string]bool{}
+			s.typedHeavy = rng.Intn(3) == 0
 			n := 20 + rng.Intn(180)
 			for k := 0; k < n; k++ {
 				if !s.op(rng, names, true) {
